@@ -1130,6 +1130,9 @@ class CeilFP(Harness):
 
 # the units with external solver calls first (they are the longest)
 HARNESSES = [CeilFP(), ZeropadCount(), RoundTrip(), Equalize()]
+for _h in HARNESSES:      # many tiny work units: share forks
+    if type(_h).__name__ in ('RoundTrip', 'Equalize'):
+        type(_h).units_per_process = 16
 
 MANIFEST = dict(
     category='model_checking',
